@@ -191,7 +191,7 @@ def run(chk):
                     shapes.append(dict(ext="etm"))
                 for sh in shapes:
                     for _ in range(1 if quick else 3):
-                        jobs.append((ver, code, rng.randrange(1 << 30), sh))
+                        jobs.append((ver, code, rng.randrange(1 << 30), dict(sh, secret_edges=rng.randrange(1, 1000)) if rng.random() < 0.3 else sh))
     covered = set()
     for res in pool_map(_tls, jobs):
         if "machinery" in res:
